@@ -10,8 +10,10 @@
 (*   errclass             rejected, but for another reason than the model:  *)
 (*                        NOT a deviation (the property fixes acceptance,   *)
 (*                        not the order of the checks) - noted in note.txt  *)
-(*   values / typemap / reencode   accepted, but the decoded known records, *)
-(*                        the TypeMap keys, or decode-then-encode differ    *)
+(*   values / typemap / typemap-values / reencode                           *)
+(*                        accepted, but the decoded known records, the      *)
+(*                        TypeMap keys, the TypeMap values of the unknown   *)
+(*                        records, or decode-then-encode differ             *)
 (* Deviations are classified (entry point, kind, input class) and written   *)
 (* to dev.txt; the run as a whole is rejected by the postcondition          *)
 (* NoDeviation, so that one pass reports every class, not only the first.   *)
@@ -49,6 +51,11 @@ Kinds(r, M, api) ==
    ELSE (IF r.k # <<KnownVal(M, <<1>>), KnownVal(M, <<2>>), KnownVal(M, <<3>>)>> THEN {"values"} ELSE {})
         \cup (IF r.t # (IF WithMap(api) THEN [i \in 1..Len(M.out) |-> M.out[i].t] ELSE <<>>)
                 THEN {"typemap"} ELSE {})
+        \cup (IF r.tv # (IF WithMap(api)
+                            THEN [i \in 1..Len(M.out) |-> IF IsKnown(M.out[i].t) THEN <<>>
+                                                          ELSE PairsOf(Rle(M.out[i].v))]
+                            ELSE <<>>)
+                THEN {"typemap-values"} ELSE {})
         \cup (IF r.q # (IF WithMap(api) THEN 1 ELSE 2) THEN {"reencode"} ELSE {}))
 
 Devs(line, Mn, Mp) ==
